@@ -206,6 +206,31 @@ func typecheck(r *rendered) *verdict {
 	return v
 }
 
+// largestArray returns the largest array length of a declared array type.
+func (v *verdict) largestArray() int64 {
+	var max int64
+	if v.file == nil {
+		return 0
+	}
+	ast.Inspect(v.file, func(n ast.Node) bool {
+		at, ok := n.(*ast.ArrayType)
+		if !ok || at.Len == nil {
+			return true
+		}
+		if tv, ok := v.info.Types[at.Len]; ok && tv.Value != nil {
+			if b := bigOf(tv.Value); b != nil && b.Sign() > 0 {
+				if !b.IsInt64() {
+					max = math.MaxInt64
+				} else if b.Int64() > max {
+					max = b.Int64()
+				}
+			}
+		}
+		return true
+	})
+	return max
+}
+
 // exprAt returns the outermost expression spanning exactly the byte range.
 func (v *verdict) exprAt(sp span) ast.Expr {
 	if v.file == nil || sp.to <= sp.from {
@@ -313,6 +338,9 @@ func formatConst(val constant.Value, typ types.Type) (string, bool) {
 	case b.Info()&types.IsInteger != 0:
 		x := constant.ToInt(val)
 		if x.Kind() != constant.Int {
+			return "", false
+		}
+		if _, fits := fit(x, name); !fits {
 			return "", false
 		}
 		s = x.ExactString()
@@ -606,6 +634,10 @@ func checkCase(c *Case, skipProg, skipEval bool) (mode string, res result, v *ve
 	if v.parseErr != nil {
 		return "", result{discard: "generated program does not parse: " + v.parseErr.Error()}, v, []string{"parse"}
 	}
+	if n := v.largestArray(); n > 65536 {
+		// never hand the interpreter (or the gc compiler) an array type of this size
+		return "", result{discard: fmt.Sprintf("array of %d elements", n)}, v, []string{"large-array"}
+	}
 	if !skipProg {
 		res = compare(c, v, runProgram(r.src), "program")
 		if res.discard != "" {
@@ -664,7 +696,7 @@ func run(ctx *vf.Ctx) {
 		}
 		mode, res, v, ds := checkCase(c, skipProg, skipEval)
 		for _, d := range ds {
-			if strings.Contains(d, "go rejects, yaegi") || strings.Contains(d, "implementation limit") {
+			if strings.Contains(d, "go rejects, yaegi") || strings.Contains(d, "implementation limit") || d == "large-array" {
 				undecided++
 				ctx.Class("undecided:" + d)
 				continue
